@@ -76,6 +76,7 @@ def sync_crate():
     # path dependency follows VERIF_REPO
     ct = os.path.join(dst, "Cargo.toml")
     s = open(ct).read().replace('"/repo/epserde"', '"%s/epserde"' % REPO)
+    s = s.replace('"/repo/epserde-derive"', '"%s/epserde-derive"' % REPO)
     open(ct, "w").write(s)
     return dst
 
@@ -213,7 +214,7 @@ def run(prop, tier, jobs=14, only=None):
         res.checker_cmd = "cd %s && CARGO_NET_OFFLINE=true CARGO_TARGET_DIR=%s %s" % (
             crate, os.path.join(WORK, "target"), " ".join(shlex.quote(c) for c in cmd))
         rc, out = common.run(cmd, cwd=crate, env={"CARGO_TARGET_DIR": os.path.join(WORK, "target")},
-                             log=log)
+                             log=log, limit_mem=True)
     res.extra["log"] = log
     if re.search(r"^error(\[E\d+\])?:", out, re.M) and "Checking harness" not in out:
         res.undecided.append("kani: harness crate does not build against the current /repo "
